@@ -6,6 +6,7 @@ import (
 	"fmt"
 	"runtime"
 	"sync"
+	"time"
 
 	"github.com/goatcms/goatcore/app"
 	"github.com/goatcms/goatcore/app/modules/commonm/commservices/envs"
@@ -15,6 +16,34 @@ import (
 )
 
 func init() { commands["getorcreate"] = cmdGetOrCreate }
+
+type yieldScope struct{ app.Scope }
+
+func pause() {
+	runtime.Gosched()
+	time.Sleep(20 * time.Microsecond)
+}
+func (y *yieldScope) Value(key interface{}) interface{} {
+	v := y.Scope.Value(key)
+	pause()
+	return v
+}
+func (y *yieldScope) SetValue(key, v interface{}) {
+	y.Scope.SetValue(key, v)
+	pause()
+}
+func (y *yieldScope) LockData() app.DataScopeLocker {
+	pause()
+	return &yieldLocker{y.Scope.LockData()}
+}
+
+type yieldLocker struct{ app.DataScopeLocker }
+
+func (l *yieldLocker) Value(key interface{}) interface{} {
+	v := l.DataScopeLocker.Value(key)
+	pause()
+	return v
+}
 
 // getorcreate: the three get-or-create services built on the data lock must hand
 // one instance to all concurrent first callers (a lost update = two instances).
@@ -39,6 +68,11 @@ func cmdGetOrCreate(args []string) error {
 			var target app.Scope = root
 			if r%2 == 1 {
 				target = scope.NewChild(root, scope.ChildParams{})
+			}
+			if r%3 != 0 {
+				// a scope that yields the processor after every data-scope call: it widens every window between
+				// a read and the locked section that should contain it (inert for code that reads under the lock)
+				target = &yieldScope{Scope: target}
 			}
 			g := []int{2, 4, 8, 32}[r%4]
 			res := make([]interface{}, g)
